@@ -315,7 +315,8 @@ def defer():
                 ts = _delay(p).total_seconds()
 
                 if ts <= 300.0:
-                    que.append(t)
+                    if t not in que:
+                        que.append(t)
                     que.sort(key=lambda i: i.get('level'))
                     t.set('status', State.waiting)
                     t.set('event', 'Periodic timer')
